@@ -97,6 +97,9 @@ def specs_for(ctx):
         for k in range(3):
             out.append((f'big{k}', {'seed': rng.randrange(1 << 30), 'ncell': 9, 'cell': 24, 'nsrc': 70 + k, 'edge': True,
                                     'nanblock': k == 1}))
+    # an image cube (NAXIS = 3), read with the default cube_index: "complete on every valid image" (appended last so that the
+    # random stream of the specs above is unchanged)
+    out.append(('cube', {'seed': rng.randrange(1 << 30), 'ncell': 3, 'cell': 24, 'nsrc': 7, 'cube': 2}))
     return out
 
 
@@ -120,6 +123,8 @@ def usable_mask(path, cat):
     from AegeanTools.wcs_helpers import WCSHelper
     with fits.open(path) as hd:
         data = np.squeeze(hd[0].data)
+        while data.ndim > 2:      # a cube: the finder reads the first plane when cube_index is not given
+            data = data[0]
         wh = WCSHelper.from_header(hd[0].header)
     out = []
     for c in cat:
